@@ -372,6 +372,8 @@ type C16WalkCase struct {
 	Identity bool `json:"identity,omitempty"`
 	// KindRoot: the root node is built by the kind-specific prototype of the implementation (not Any)
 	KindRoot bool `json:"kind_root,omitempty"`
+	// RootImpl: the implementation holding the root (default basicnode Any)
+	RootImpl string `json:"root_impl,omitempty"`
 }
 
 // c16F is the deterministic transform applied to every matched node.
@@ -422,6 +424,9 @@ func c16WalkCheck(c C16WalkCase, rec *evid.Rec) error {
 	var rootProto datamodel.NodePrototype
 	if c.KindRoot {
 		rootProto = nodes.ProtoFor(nodes.BasicKind, c.G.Root.K)
+	}
+	if c.RootImpl != "" {
+		rootProto = nodes.ProtoFor(nodes.Impl(c.RootImpl), c.G.Root.K)
 	}
 	real, err := graph.Realise(c.G, rootProto)
 	if err != nil {
@@ -503,6 +508,9 @@ var c16Walk = evid.Part[C16WalkCase]{
 	Gen: func(t *rapid.T) C16WalkCase {
 		c := genGraphSel(t, rapid.IntRange(1, 4).Draw(t, "seldepth"))
 		w := C16WalkCase{G: c.G, S: c.S, KindRoot: rapid.Bool().Draw(t, "kindroot")}
+		if rapid.IntRange(0, 2).Draw(t, "rootimpl") == 0 {
+			w.RootImpl = string(rapid.SampledFrom(nodes.Impls).Draw(t, "impl"))
+		}
 		switch rapid.IntRange(0, 3).Draw(t, "fmode") {
 		case 0:
 			w.KeepContainers = true
